@@ -24,6 +24,10 @@ GENESIS = {
 }
 for _c, _b in GENESIS.items():
     assert _b.hash[::-1].hex() == COINS[_c]['genesis'], 'genesis reconstruction broken for ' + _c
+# genesis blocks of sibling networks (same coinbase transaction as Bitcoin): they are NOT the genesis block of any supported coin
+FOREIGN_GENESIS = {'regtest': _gen(_BTC_PSZ, 1296688602, 2, 0x207fffff, 1, 50 * 10**8, _BTC_PK), 'signet': _gen(_BTC_PSZ, 1598918400, 52613770, 0x1e0377ae, 1, 50 * 10**8, _BTC_PK)}
+assert FOREIGN_GENESIS['regtest'].hash[::-1].hex() == '0f9188f13cb7b2c71f2a335e3a4fc328bf5beb436012afca590b1a11466e2206'
+assert FOREIGN_GENESIS['signet'].hash[::-1].hex() == '00000008819873e925422c1ff0f99f7cc9bbb232af63a077a480a3633bee1ef6'
 
 ALL_COINS = list(COINS)
 FORK_COINS = [c for c in COINS if c not in ('bitcoin', 'testnet3')]
